@@ -60,6 +60,9 @@ def run(tier):
         for D, box in ((2, [[-2.0, 3.0], [5.0, 5.5]]), (3, [[0.0, 1.0], [-4.0, 0.0], [10.0, 12.0]])):
             algo = rnd0.choice(["T_HOO", "HCT", "SOO", "DOO", "SequOOL", "Zooming", "StoSOO", "PCT", "POO"])
             dj.append({"id": 3050000 + 10 * j + D, "algo": algo, "kind": kind, "K": Kk, "D": D, "box": box, "n": 100, "T": 40, "prm": {}, "pattern": "noisy", "seed": rnd0.randrange(1 << 30)})
+            # the same with the domain handed in as a (d, 2) array: slices of an array are views, a shallow copy is not a copy
+            algo = rnd0.choice(["T_HOO", "HCT", "SOO", "DOO", "SequOOL", "Zooming", "StoSOO", "PCT", "POO"])
+            dj.append({"id": 3050000 + 10 * j + D + 5, "algo": algo, "kind": kind, "K": Kk, "D": D, "box": box, "n": 100, "T": 40, "prm": {}, "pattern": "noisy", "seed": rnd0.randrange(1 << 30), "domtype": "ndarray"})
     chk.validate("Trace_Session.tla", "Trace_Session.cfg", S.pmap(S.run_session, dj), "dom2", own=["end.domain-mutated"], nontrivial=lambda t: True)
     # (b) isolation: TLC-enumerated interleavings of two sessions
     scheds = PC2.schedules(chk, "two", 2, 0)
@@ -95,5 +98,5 @@ def run(tier):
     chk.assumptions = ["interleaving part on partitions whose splits do not depend on the random stream (1-D midpoint / K-ary / dimension-wise), as the property states", "sessions are compared on points (rank-coded and relative position), cells, and all structural events"]
     return chk.finish(
         rule="TLC enumerates every interleaving of two 2-round (thorough: 3-round) sessions and simulates long ones (MC_Schedule); each schedule is executed with two real instances and each instance's trace is compared event by event (Trace_Pair) with its solo trace; every algorithm is also run twice in fresh interpreters with different PYTHONHASHSEED and compared; all sessions pass Trace_Session's end.domain-mutated clause.  Non-trivial = accepted pair with > 40 events.",
-        explanation="Identical sequences of points (bit-identical: equal rank codes and equal relative positions), cells, expansions and recommendations between the two runs of a pair; the user's domain list deep-equal before and after.",
+        explanation="Identical sequences of points (bit-identical: equal rank codes and equal relative positions), cells, expansions and recommendations between the two runs of a pair; the user's domain object (list of lists, the aliased [[lo, hi]] * d, or a (d, 2) array) deep-equal before and after.",
     )
